@@ -118,11 +118,24 @@ func (s *Server) Serve(l net.Listener) error {
 			return err
 		}
 
+		// Register the connection before its goroutine starts, so that a Close
+		// running in between cannot miss it; if Close has run already it is up
+		// to us to end the connection.
+		conn := newConn(c, s)
+		s.locker.Lock()
+		s.conns[conn] = struct{}{}
+		s.locker.Unlock()
+		select {
+		case <-s.done:
+			conn.Close()
+		default:
+		}
+
 		s.wg.Add(1)
 		go func() {
 			defer s.wg.Done()
 
-			err := s.handleConn(newConn(c, s))
+			err := s.handleConn(conn)
 			if err != nil {
 				s.ErrorLog.Printf("error handling %v: %s", c.RemoteAddr(), err)
 			}
